@@ -129,6 +129,66 @@ def explore_c03(rng, tier, res, deep=False):
             lit = qq + pt + qq
             qs += [f"$[?match(@.a, {lit})]", f"$[?search(@, {lit})]", f"$[?!match({lit}, {lit})]", f"$[?search(@.a, {lit}) || match(@.b, {lit})]"]
     compile_cases(res, FULL_ENV, qs, "C03", want="valid")
+    other_environments_alongside(res)
+
+
+def other_environments_alongside(res):
+    """'Well-typed with the built-in functions' is a fact about the built-ins, not about what some OTHER environment did to
+    its own registry: a stock environment made first, the module-level functions, a stock environment made in between and a
+    subclass that registers more functions must all go on accepting valid queries that call the built-ins after another
+    environment has removed a built-in, replaced one by a function of another signature, or emptied its registry."""
+    import jsonpath_rfc9535 as jp
+    from jsonpath_rfc9535.function_extensions import ExpressionType, FilterFunction
+
+    class Odd(FilterFunction):
+        arg_types = [ExpressionType.VALUE, ExpressionType.VALUE]
+        return_type = ExpressionType.LOGICAL
+
+        def __call__(self, *a):
+            return False
+
+    valid = ["$[?match(@.tz, 'Europe/.*')]", "$[?count(@.*) > 2]", "$[?length(@.a) == 1]", "$[?value(@..a) == 1]", "$[?search(@, 'a')]",
+             "$[?count(@.*) == length(@)]", "$[?!search(@.a, value(@.b))]"]
+    stock_first = jp.JSONPathEnvironment()
+
+    class More(jp.JSONPathEnvironment):
+        def setup_function_extensions(self):
+            super().setup_function_extensions()
+            self.function_extensions["odd"] = Odd()
+
+    more = More()
+    steps = [
+        ("another environment deleted match and search", lambda e: (e.function_extensions.pop("match", None), e.function_extensions.pop("search", None))),
+        ("another environment replaced count and length by two-parameter LogicalType functions", lambda e: e.function_extensions.update({"count": Odd(), "length": Odd()})),
+        ("another environment emptied its registry", lambda e: e.function_extensions.clear()),
+        ("a subclass instance replaced value", lambda e: e.function_extensions.update({"value": Odd()})),
+    ]
+    for label, act in steps:
+        sandbox = (type("Sandbox", (jp.JSONPathEnvironment,), {}) if "subclass" in label else jp.JSONPathEnvironment)()
+        act(sandbox)
+        for who, comp in (("a stock environment created earlier", stock_first.compile), ("the module-level compile()", jp.compile),
+                          ("a subclass instance that registers an extra function", more.compile)):
+            for q in valid:
+                res.evaluations += 1
+                try:
+                    comp(q)
+                except jp.JSONPathError as exc:
+                    res.violations.append({"property": "C03", "query": q, "observed": f"{type(exc).__name__}: {exc}", "expected": "compiles",
+                                           "history": f"{label}; then {who} compiles the text",
+                                           "what": "a valid query calling built-in functions is rejected because of what another environment did to its own registry"})
+                    return
+        # only now a further stock environment (constructing one re-registers the built-ins and would hide the damage)
+        later = jp.JSONPathEnvironment()
+        for q in valid:
+            res.evaluations += 1
+            try:
+                later.compile(q)
+            except jp.JSONPathError as exc:
+                res.violations.append({"property": "C03", "query": q, "observed": f"{type(exc).__name__}: {exc}", "expected": "compiles",
+                                       "history": f"{label}; then a stock environment is created and compiles the text",
+                                       "what": "a valid query calling built-in functions is rejected by a new stock environment"})
+                return
+    res.count("other-environments-alongside", len(steps))
 
 
 # ---------------------------------------------------------------------------------------------
@@ -1154,6 +1214,86 @@ for _base in ("a", "abc", "_", "A1", "z_9"):
 C08_NAMES += ['a\\"b', '\\"', '\\\\"', "\\'", "\\\\'", 'a\\\\\\"', "\\\\", "\\\\\\'x", '"\\', "'\\", "e\u0301", "\u212b", "\uf900"]
 
 
+def identity_under_reuse(rng, tier, res):
+    """'The very object' also when a compiled query has been applied before: one compiled query applied to a value, then
+    to an EQUAL but distinct copy of it (every node must hold the copy's own objects), then to the same object after
+    structural edits in place (an element inserted in front, a container replaced by an equal one, a member renamed):
+    location -> object identity and the re-query of path(), each time, in both modes."""
+    import copy
+
+    import jsonpath_rfc9535 as jp
+
+    def follow(doc, loc):
+        cur = doc
+        for k in loc:
+            if isinstance(k, int) and (k < 0 or not isinstance(cur, list)):
+                raise KeyError(k)
+            cur = cur[k]
+        return cur
+
+    def check(env, c, q, doc, stage):
+        try:
+            nodes = c.find(doc)
+        except jp.JSONPathError:
+            return True
+        for nd in nodes[:60]:
+            res.evaluations += 1
+            try:
+                same = follow(doc, nd.location) is nd.value
+            except (KeyError, IndexError, TypeError):
+                same = False
+            back_ok = True
+            if same:
+                try:
+                    back = env.find(nd.path(), doc)
+                    back_ok = len(back) == 1 and back[0].value is nd.value
+                except jp.JSONPathError:
+                    back_ok = False
+            if not same or not back_ok:
+                res.violations.append({"property": "C08", "query": q, "document": doc, "observed": {"location": list(nd.location), "stage": stage},
+                                       "expected": "node.location leads to the very object in node.value, in the value the query was applied to",
+                                       "history": "one compiled query: applied to a value; to an equal, distinct copy; to the same object after in-place edits (" + stage + ")",
+                                       "what": "a compiled query applied again returns nodes that do not belong to the value it was applied to"})
+                return False
+        return True
+
+    base_docs = [
+        {"store": [{"tags": ["x"], "dim": {"w": 1}}, {"tags": ["y", "z"], "dim": {"w": 2}}], "meta": {"tags": []}},
+        [[1, [2, {"a": [3]}]], {"a": {"a": [4, [5]]}}, "s"],
+        {"a": {"b": {"c": [1, 2, {"d": {}}]}}, "l": [[], [[]], {}]},
+    ]
+    queries = ["$..*", "$..tags", "$..a", "$..[0]", "$..[?@]", "$.store[?$..w]", "$[?count($..*) > 2]", "$..[?@..*]", "$.*", "$..[-1]", "$..[::-1]", "$.store[*].dim", "$[?@.a].a", "$..['a','tags']"]
+    for ndflag in (False, True):
+        env = real.make_env(dict(real.DEFAULT_ENVDESC, nd=ndflag))
+        for doc0 in base_docs:
+            for q in queries:
+                c = env.compile(q)
+                d1 = copy.deepcopy(doc0)
+                if not check(env, c, q, d1, "first application"):
+                    continue
+                d2 = copy.deepcopy(d1)
+                if not check(env, c, q, d2, "an equal, distinct copy of the first value"):
+                    continue
+                if not check(env, c, q, d1, "the first value again"):
+                    continue
+                # in-place structural edits of d1
+                if isinstance(d1, list):
+                    d1.insert(0, {"new": [0]})
+                else:
+                    k0 = next(iter(d1))
+                    d1[k0] = copy.deepcopy(d1[k0])  # an equal container replaces the old one
+                    d1["zz"] = d1.pop(next(iter(d1)))  # a member renamed (moves to the end)
+                if not check(env, c, q, d1, "the same object after in-place edits"):
+                    continue
+                for sub in (d1.values() if isinstance(d1, dict) else d1):
+                    if isinstance(sub, list):
+                        sub.insert(0, [9])
+                        break
+                check(env, c, q, d1, "the same object after an element was inserted in front of a nested array")
+                res.nontrivial.add(("identity-under-reuse", ndflag, q, json.dumps(doc0, sort_keys=True)))
+    res.count("identity-under-reuse")
+
+
 def explore_c08(rng, tier, res, deep=False):
     import jsonpath_rfc9535 as jp
 
@@ -1245,6 +1385,7 @@ def explore_c08(rng, tier, res, deep=False):
         for nm in names:
             canon_lines.append("canon\t" + wire.enc_str(nm))
             canon_names.append(nm)
+    identity_under_reuse(rng, tier, res)
     if tier == "thorough":
         for cp in list(range(0, 0xD800, 1)) + list(range(0xE000, 0x110000, 1)):
             if cp > 0x3000 and cp % 97:
